@@ -173,14 +173,13 @@ def option_tests(body, local):
     return tests
 
 
-def sites_reaching(P, body, pred, include_cleanup=False):
+def sites_reaching(P, body, pred, include_cleanup=False, sync_only=True):
     """Call sites in `body` (its own MIR only) that are, or transitively reach, a callee matching pred."""
-    m = matcher(pred)
     out = []
     for cs in body.calls():
         if not include_cleanup and body.is_cleanup(cs.bb):
             continue
-        if P.site_reaches(cs, m):
+        if P.site_reaches(cs, pred, sync_only):
             out.append(cs)
     return out
 
